@@ -536,6 +536,103 @@ def templates():
                         ["act8", "plain", "acte4"][p.rng.integers(3)])
         return lambda: torch.conv2d(a, w)
 
+    # ---- in-place arithmetic: on a fresh quantized copy (the destination itself is judged) and on a float destination
+    # that takes a quantized operand (residual adds, gating, masked updates)
+    def small(p, a):
+        return p.sibling(a) if p.rng.random() < 0.5 else p.randn(tuple(a.shape))
+
+    @reg("inplace_qdest")
+    def _(p, a):
+        if not hasattr(a, "qtype"):
+            return lambda: a
+        d = a.clone()
+        s = scalar(p.rng)
+        if isinstance(s, torch.Tensor) and s.ndim > 0 and a.ndim == 0:
+            s = float(s.reshape(-1)[0])
+        c = int(p.rng.integers(14))
+        if c == 0:
+            return lambda: (d.mul_(s), d)[1]
+        if c == 1:
+            return lambda: (d.div_(s), d)[1]
+        if c == 2:
+            o = small(p, a)
+            return lambda: (d.add_(o), d)[1]
+        if c == 3:
+            return lambda: (d.sub_(s), d)[1]
+        if c == 4:
+            return lambda: (d.neg_(), d)[1]
+        if c == 5:
+            m = float(abs(s if not isinstance(s, torch.Tensor) else float(s.reshape(-1)[0])))
+            return lambda: (d.clamp_(-m, m), d)[1]
+        if c == 6:
+            return lambda: (d.zero_(), d)[1]
+        if c == 7:
+            v = float(s if not isinstance(s, torch.Tensor) else float(s.reshape(-1)[0]))
+            return lambda: (d.fill_(v), d)[1]
+        if c == 8:
+            mask = torch.from_numpy(p.rng.random(tuple(a.shape)) < 0.4)
+            return lambda: (d.masked_fill_(mask, 0.0), d)[1]
+        if c == 9:
+            def f():
+                x = d
+                x *= s
+                return d
+            return f
+        if c == 10:
+            def f():
+                x = d
+                x /= s
+                return d
+            return f
+        if c == 11:
+            o = small(p, a)
+
+            def f():
+                x = d
+                x += o
+                return d
+            return f
+        if c == 12 and a.ndim >= 1 and a.shape[0] >= 1:
+            o = small(p, a)
+
+            def f():
+                d[0] = o[0]
+                return d
+            return f
+        return lambda: (torch.nn.functional.relu(d, inplace=True), d)[1]
+
+    @reg("inplace_fdest")
+    def _(p, a):
+        f0 = p.randn(tuple(a.shape))
+        c = int(p.rng.integers(8))
+        if c == 0:
+            return lambda: f0.add_(a)
+        if c == 1:
+            return lambda: f0.mul_(a)
+        if c == 2:
+            return lambda: f0.sub_(a)
+        if c == 3:
+            def f():
+                x = f0
+                x += a
+                return f0
+            return f
+        if c == 4:
+            def f():
+                x = f0
+                x *= a
+                return f0
+            return f
+        if c == 5 and a.ndim >= 1 and a.shape[0] >= 1:
+            def f():
+                f0[0] = a[0]
+                return f0
+            return f
+        if c == 6:
+            al = float(p.rng.uniform(0.1, 2.0))
+            return lambda: f0.add_(a, alpha=al)
+        return lambda: f0.addcmul_(a, small(p, a))
+
     return T
 
 
